@@ -188,7 +188,8 @@ public:
 		ss.imbue(std::locale::classic());
 		T value;
 		ss>>value;
-		if(ss.fail() || !ss.eof())
+		// all of the text has to be used, reading a character type does not set eof by itself
+		if(ss.fail() || (!ss.eof() && ss.peek()!=std::char_traits<char>::eof()))
 			throw booster::bad_cast();
 		return value;
 	}
